@@ -89,8 +89,8 @@ def run(prop, tier, seed, root):
         out["inconclusive"] = "no digests produced"
     out["distinct_nontrivial"] = len(distinct)
     # --- build artifacts
-    nd = _newest(os.path.join(root, "target", "nodefault", "relflags", "deps", "libany_vec-*.rlib"))
-    df = _newest(os.path.join(root, "target", "rel", "relflags", "deps", "libany_vec-*.rlib"))
+    nd = _newest(os.path.join(common.TARGET, "nodefault", "relflags", "deps", "libany_vec-*.rlib"))
+    df = _newest(os.path.join(common.TARGET, "rel", "relflags", "deps", "libany_vec-*.rlib"))
 
     def deps_of(rlib):
         env = dict(os.environ)
